@@ -49,6 +49,15 @@ theories/Infer/Frame.vos theories/Infer/Frame.vok theories/Infer/Frame.required_
 theories/Graph/Closure.vo theories/Graph/Closure.glob theories/Graph/Closure.v.beautified theories/Graph/Closure.required_vo: theories/Graph/Closure.v 
 theories/Graph/Closure.vio: theories/Graph/Closure.v 
 theories/Graph/Closure.vos theories/Graph/Closure.vok theories/Graph/Closure.required_vos: theories/Graph/Closure.v 
+theories/Graph/AddExpr.vo theories/Graph/AddExpr.glob theories/Graph/AddExpr.v.beautified theories/Graph/AddExpr.required_vo: theories/Graph/AddExpr.v 
+theories/Graph/AddExpr.vio: theories/Graph/AddExpr.v 
+theories/Graph/AddExpr.vos theories/Graph/AddExpr.vok theories/Graph/AddExpr.required_vos: theories/Graph/AddExpr.v 
+theories/Graph/AddExprSpec.vo theories/Graph/AddExprSpec.glob theories/Graph/AddExprSpec.v.beautified theories/Graph/AddExprSpec.required_vo: theories/Graph/AddExprSpec.v theories/Graph/AddExpr.vo
+theories/Graph/AddExprSpec.vio: theories/Graph/AddExprSpec.v theories/Graph/AddExpr.vio
+theories/Graph/AddExprSpec.vos theories/Graph/AddExprSpec.vok theories/Graph/AddExprSpec.required_vos: theories/Graph/AddExprSpec.v theories/Graph/AddExpr.vos
+theories/Graph/AddExprProofs.vo theories/Graph/AddExprProofs.glob theories/Graph/AddExprProofs.v.beautified theories/Graph/AddExprProofs.required_vo: theories/Graph/AddExprProofs.v theories/Graph/AddExpr.vo theories/Graph/AddExprSpec.vo
+theories/Graph/AddExprProofs.vio: theories/Graph/AddExprProofs.v theories/Graph/AddExpr.vio theories/Graph/AddExprSpec.vio
+theories/Graph/AddExprProofs.vos theories/Graph/AddExprProofs.vok theories/Graph/AddExprProofs.required_vos: theories/Graph/AddExprProofs.v theories/Graph/AddExpr.vos theories/Graph/AddExprSpec.vos
 theories/Bag/Union.vo theories/Bag/Union.glob theories/Bag/Union.v.beautified theories/Bag/Union.required_vo: theories/Bag/Union.v 
 theories/Bag/Union.vio: theories/Bag/Union.v 
 theories/Bag/Union.vos theories/Bag/Union.vok theories/Bag/Union.required_vos: theories/Bag/Union.v 
@@ -142,3 +151,6 @@ props/C17_parser.vos props/C17_parser.vok props/C17_parser.required_vos: props/C
 props/C16.vo props/C16.glob props/C16.v.beautified props/C16.required_vo: props/C16.v theories/Base/Hier.vo theories/Base/Ty.vo theories/Infer/Store.vo theories/Infer/Engine.vo theories/Infer/Run.vo theories/Infer/Inv.vo theories/Infer/Frame.vo
 props/C16.vio: props/C16.v theories/Base/Hier.vio theories/Base/Ty.vio theories/Infer/Store.vio theories/Infer/Engine.vio theories/Infer/Run.vio theories/Infer/Inv.vio theories/Infer/Frame.vio
 props/C16.vos props/C16.vok props/C16.required_vos: props/C16.v theories/Base/Hier.vos theories/Base/Ty.vos theories/Infer/Store.vos theories/Infer/Engine.vos theories/Infer/Run.vos theories/Infer/Inv.vos theories/Infer/Frame.vos
+props/C08.vo props/C08.glob props/C08.v.beautified props/C08.required_vo: props/C08.v theories/Graph/AddExpr.vo theories/Graph/AddExprSpec.vo theories/Graph/AddExprProofs.vo
+props/C08.vio: props/C08.v theories/Graph/AddExpr.vio theories/Graph/AddExprSpec.vio theories/Graph/AddExprProofs.vio
+props/C08.vos props/C08.vok props/C08.required_vos: props/C08.v theories/Graph/AddExpr.vos theories/Graph/AddExprSpec.vos theories/Graph/AddExprProofs.vos
